@@ -69,6 +69,7 @@ func runC01(w *World, r *Report) {
 	c01HistoryOrder(w, r, "C01/HISTORY-ORDER")
 	r.Rule("C01/REPORT-LAST", "a worker that reports its result over a channel performs no ledger or cluster write after the report", 4)
 	c01ReportLast(w, r, "C01/REPORT-LAST")
+	c01NameReuse(w, r)
 }
 
 // ---- REV ---------------------------------------------------------------------------------------
